@@ -17,7 +17,7 @@ def has_marker_risk(program: dict) -> bool:
 
 
 def run(prop, tier, seed, profiles, n_quick, n_thorough, also=(), assumptions=(), select=None, extra_oracle=None, gen_kw=None,
-        level_rule=None):
+        level_rule=None, extra_stream=None):
     v = Verdict(prop, tier, seed)
     po = common.proof_obligations(prop)
     findings = common.findings_for(prop, also=also)
@@ -90,6 +90,11 @@ def run(prop, tier, seed, profiles, n_quick, n_thorough, also=(), assumptions=()
     for f in findings:
         if f["id"] in known_hits:
             v.known_finding(f"{f['id']}: {f['summary']} ({len(known_hits[f['id']])} instances)")
+    extra_cov = {}
+    if extra_stream is not None:
+        # a directed stream of the property (e.g. the typed operator grid of C12): reports its own violations / known findings
+        n_extra, extra_cov = extra_stream(v, findings)
+        new = new + [(None, dict(kind="extra_stream"))] * n_extra
     broken = proof_status(po, corr)
     if broken and not new:
         # directed search: the programs on which the model and the code disagree, over fresh table contents
@@ -102,6 +107,7 @@ def run(prop, tier, seed, profiles, n_quick, n_thorough, also=(), assumptions=()
                                           "the real code found no failing input", broken=broken, theorems=po.get("theorems")), no_input=True)
     v.coverage = coverage(po, results, st, corr, known_hits,
                           extra=dict(frames_compared_with_spec=n_spec, sqlite_frames_compared_with_sql_model=n_sqlmodel, query_shapes_compared=n_shape))
+    v.coverage.update(extra_cov)
     if level_rule:
         v.coverage["rule"] += "; " + level_rule
     v.assumptions = list(assumptions)
